@@ -177,7 +177,7 @@ pub fn run() -> i32 {
     let k = if thorough { 2 } else { 1 };
     r.rule = "environment: the order in which the IPA table's HashMap is walked when the grapheme list is built, chosen by the harness through the verif seam: sorted, reversed, and every one of the 365 graphemes moved to the front (367 orders; by the reduction argument of DESIGN §5 C01 these produce every outcome any of the 365! orders can produce), one fresh process per order, plus 16 processes with the order left to the real per-process hash seed (replay check for nondeterminism the seam does not own). Data: every bundle of base + <= k diacritics and every single feature/node change of a base, rendered normally and through the `+` romaniser path, plus a corpus of run() calls with aliases. Histories inside one process: same call twice, interleaved with other calls, every permutation of word lists. Oracle: all observations identical. Non-trivial = bundles whose rendering is not �.".into();
     let exe = std::env::current_exe().expect("own path");
-    let dir = format!("/verif/work/c01_{}", std::process::id());
+    let dir = format!("{}/work/c01_{}", crate::util::root(), std::process::id());
     let _ = std::fs::create_dir_all(&dir);
     let mut orders: Vec<(String, Option<String>)> = vec![("sorted".into(), Some("sorted".into())), ("rev".into(), Some("rev".into()))];
     for (g, _) in av::cardinals() { orders.push((format!("front:{}", g), Some(format!("front:{}", g)))); }
@@ -239,8 +239,8 @@ pub fn replay(case: &Value) -> Result<String, String> {
             let line = case["line"].as_str().unwrap_or("");
             let mut seen = vec![];
             for o in ["sorted", case["order"].as_str().unwrap_or("rev")] {
-                let out = format!("/verif/work/c01_replay_{}.txt", std::process::id());
-                let _ = std::fs::create_dir_all("/verif/work");
+                let out = format!("{}/work/c01_replay_{}.txt", crate::util::root(), std::process::id());
+                let _ = std::fs::create_dir_all(format!("{}/work", crate::util::root()));
                 let mut cmd = std::process::Command::new(&exe);
                 cmd.arg("c01-worker").arg(k.to_string()).arg(&out);
                 if o.starts_with("unset") { cmd.env_remove("ASCA_VERIF_ORDER"); } else { cmd.env("ASCA_VERIF_ORDER", o); }
